@@ -2627,6 +2627,35 @@ impl Block {
         block
     }
 
+    /// whether the ATR transactions of this block spend, one by one and in order, the outputs the given
+    /// rebroadcast transactions spend
+    fn rebroadcasts_spend_same_outputs(&self, rebroadcasts: &Vec<Transaction>) -> bool {
+        let mut next = 0;
+        for i in 0..self.transactions.len() {
+            let transaction = &self.transactions[i];
+            if transaction.transaction_type == TransactionType::ATR {
+                if next >= rebroadcasts.len() {
+                    return false;
+                }
+                let expected = &rebroadcasts[next];
+                next += 1;
+                if expected.from.len() != transaction.from.len() {
+                    return false;
+                }
+                for j in 0..expected.from.len() {
+                    if expected.from[j].public_key != transaction.from[j].public_key
+                        || expected.from[j].block_id != transaction.from[j].block_id
+                        || expected.from[j].tx_ordinal != transaction.from[j].tx_ordinal
+                        || expected.from[j].slip_index != transaction.from[j].slip_index
+                    {
+                        return false;
+                    }
+                }
+            }
+        }
+        next == rebroadcasts.len()
+    }
+
     pub async fn validate(
         &self,
         blockchain: &Blockchain,
@@ -3118,6 +3147,14 @@ impl Block {
         //}
         if validate_against_utxo && cv.rebroadcast_hash != self.rebroadcast_hash {
             error!("ERROR 123422: hash of rebroadcast transactions incorrect. expected : {:?} actual : {:?}",cv.rebroadcast_hash.to_hex(), self.rebroadcast_hash.to_hex());
+            return false;
+        }
+        // the hash above is taken over the bytes a transaction signature covers, and those do not say
+        // which output an input spends (block id and transaction ordinal are not part of them). an ATR
+        // transaction is exempt from the signature and ownership checks, so its inputs are compared
+        // with the outputs that are actually falling off the chain
+        if validate_against_utxo && !self.rebroadcasts_spend_same_outputs(&cv.rebroadcasts) {
+            error!("ERROR 123423: rebroadcast transactions do not spend the outputs being rebroadcast");
             return false;
         }
 
